@@ -34,7 +34,8 @@ static const struct { int rows, cols; } shapes[] = {
 #define NSHAPES	7
 static const int nfreqs[] = { 0, 1, 3 };
 #define NZMODES	3	/* default 50, ordinary unequal complex, per-frequency */
-#define NOMODES	3	/* in place, fresh second object, used second object */
+#define NOMODES	4	/* in place, fresh second object, used second object,
+			   second object that already has the result's shape */
 #define NPARTA	((long)VDM_NTYPES * VDM_NTYPES * NSHAPES * NZMODES * \
 	NOMODES * 3)
 #define NPARTB	((long)VDM_NTYPES * VDM_NTYPES * VDM_NTYPES * NZMODES)
@@ -371,10 +372,40 @@ static vnadata_t *make_used(vf_result *r)
     return vdp;
 }
 
+static int g_out_to = -1;	/* target type, for output mode 3 */
+
 static vnadata_t *make_out(int omode, vnadata_t *in, vf_result *r)
 {
     if (omode == 0)
 	return in;
+    if (omode == 3) {
+	/*
+	 * an object that already has the dimensions and the number of
+	 * frequencies the result will have (it received the same conversion
+	 * before) and now holds other frequencies, impedances and cells:
+	 * nothing of its earlier life may show in the result
+	 */
+	vnadata_t *o = new_obj();
+	if (o == NULL) {
+	    vf_fail(r, "setup:out", "vnadata_alloc failed");
+	    return NULL;
+	}
+	if (g_out_to >= 0 && vnadata_convert(in, o, g_out_to) == 0) {
+	    int nf = vnadata_get_frequencies(o);
+	    int rows = vnadata_get_rows(o), cols = vnadata_get_columns(o);
+	    for (int f = 0; f < nf; ++f) {
+		(void)vnadata_set_frequency(o, f, 7.0e6 * (f + 1));
+		for (int i = 0; i < rows; ++i)
+		    for (int j = 0; j < cols; ++j)
+			(void)vnadata_set_cell(o, f, i, j, 9.0 - 4.0 * I);
+	    }
+	    (void)vnadata_set_all_z0(o, 33.0 + 3.0 * I);
+	    (void)vnadata_set_format(o, "Tri");
+	    (void)vnadata_set_fprecision(o, 3);
+	}
+	vf_errlog_reset(&L);
+	return o;
+    }
     if (omode == 1) {
 	vnadata_t *o = new_obj();
 	if (o == NULL)
@@ -611,7 +642,8 @@ static void run_a(long idx, vf_result *r)
     static const char *const zname[] = { "default z0", "unequal complex z0",
 	"per-frequency z0" };
     static const char *const oname[] = { "in place", "into a fresh object",
-	"into a used Z 3x3x2 object" };
+	"into a used Z 3x3x2 object", "into an object that already has the "
+	"result's shape and other frequencies" };
     char what[200];
     int e;
 
@@ -644,7 +676,9 @@ static void run_a(long idx, vf_result *r)
     vnadata_t *in = make_input(from, rows, cols, nf, zmode, r);
     if (in == NULL)
 	return;
+    g_out_to = to;
     vnadata_t *out = make_out(omode, in, r);
+    g_out_to = -1;
     if (out == NULL) {
 	vnadata_free(in);
 	return;
